@@ -26,6 +26,6 @@ func init() {
 		// knows that NotIn / DoesNotExist requirements match a pod without labels
 		rules.LabelMatchingByLibrary(p, r, "C10-match")
 		rules.LoopCarriedPartialWrites(p, r, "C10-loop", core.PkgIngress)
-		r.Floor("C10-loop", 1)
+		r.Floor("C10-loop", 0) // the one instance of today (the pod access port built field by field) disappears when that block is extracted; zero instances is a legitimate state
 	})
 }
